@@ -3,11 +3,21 @@ C05 helper lemmas, part a: the output order `Mode.before`, the stable insertion 
 `merge`, prefix/suffix splitting.  Core Lean only.
 -/
 import SigModel.Model.Sched
+set_option linter.unusedSimpArgs false
 
 namespace SigModel.Lemmas.C05
 open SigModel.Sched
 
 /-! ### the order -/
+
+@[simp] theorem rf_false (a b : Nat) : (Mode.recentFirst.before a b = false) ↔ a ≤ b := by
+  simp [Mode.before]
+@[simp] theorem rl_false (a b : Nat) : (Mode.recentLast.before a b = false) ↔ b ≤ a := by
+  simp [Mode.before]
+@[simp] theorem rf_true (a b : Nat) : (Mode.recentFirst.before a b = true) ↔ b < a := by
+  simp [Mode.before]
+@[simp] theorem rl_true (a b : Nat) : (Mode.recentLast.before a b = true) ↔ a < b := by
+  simp [Mode.before]
 
 theorem before_irrefl (m : Mode) (a : Nat) : m.before a a = false := by
   cases m <;> simp [Mode.before]
@@ -89,11 +99,23 @@ theorem mem_sortBy {α : Type} (m : Mode) (key : α → Nat) (l : List α) (x : 
 
 /-! ### merge -/
 
+@[simp] theorem merge_nil_left (m : Mode) (r : List Rec) : merge m [] r = r := rfl
+
+@[simp] theorem merge_nil_right (m : Mode) : ∀ (l : List Rec), merge m l [] = l
+  | [] => rfl
+  | a :: l => by
+    show mergeInto m a (merge m l) [] = a :: l
+    simp [mergeInto, merge_nil_right m l]
+
+theorem merge_cons_cons (m : Mode) (a b : Rec) (l r : List Rec) :
+    merge m (a :: l) (b :: r) =
+      if m.before b.2 a.2 then b :: merge m (a :: l) r else a :: merge m l (b :: r) := rfl
+
 theorem merge_perm (m : Mode) : ∀ (l r : List Rec), (merge m l r).Perm (l ++ r)
-  | [], r => by simp [merge]
-  | a :: l, [] => by simp [merge]
+  | [], r => by simp
+  | a :: l, [] => by simp
   | a :: l, b :: r => by
-    simp only [merge]
+    rw [merge_cons_cons]
     split
     · have ih := merge_perm m (a :: l) r
       exact (List.Perm.cons b ih).trans (List.perm_middle.symm)
@@ -106,10 +128,10 @@ theorem mem_merge (m : Mode) (l r : List Rec) (x : Rec) : x ∈ merge m l r ↔ 
 
 theorem merge_sorted (m : Mode) : ∀ (l r : List Rec), SortedBy m (·.2) l → SortedBy m (·.2) r →
     SortedBy m (·.2) (merge m l r)
-  | [], r, _, hr => by simpa [merge] using hr
-  | a :: l, [], hl, _ => by simpa [merge] using hl
+  | [], r, _, hr => by simpa using hr
+  | a :: l, [], hl, _ => by simpa using hl
   | a :: l, b :: r, hl, hr => by
-    simp only [merge]
+    rw [merge_cons_cons]
     have hl' := List.pairwise_cons.mp hl
     have hr' := List.pairwise_cons.mp hr
     split
